@@ -363,6 +363,8 @@ def c07(tier):
     js += [J("bboxloop_4", "C07_poly.c", ["-DBBOXLOOP", "-DNV=4"], unwind=6, est=60, tier="thorough", bound="all loops of 4 in-range vertices")]
     js += with_witness(J("polyglue", "C07_polyglue.c", [], unwind=5, est=10, stubs={"polygon": ["pointInsideGeoLoop", "cellBoundaryCrossesGeoLoop", "bboxFromGeoLoop"]}, bound="outer loop + 0-2 holes, any loop-level results"))
     js += iter_glue_jobs()
+    js.append(J("cross_reject_sound_tri_g2", "C15_cross.c", ["-DNVL=3", "-DNVB=2", "-DGRID=2"], unwind=5, us={"cellBoundaryCrossesGeoLoop.0": 5, "cellBoundaryCrossesGeoLoop.1": 5, "cellBoundaryCrossesGeoLoop.2": 5, "bboxFromGeoLoop.0": 5, "harness.0": 5, "harness.1": 5, "harness.2": 5, "harness.3": 5, "harness.4": 5, "harness.5": 5}, est=600, mem="M", timeout=3000, tier="thorough", core=False,
+                stubs={"polygon": ["lineCrossesLine"]}, bound="quick rejects of the crossing test (used for coarse cells in every mode): triangle polygon loop x one cell-boundary segment, 2^-2 rad grid"))
     js += with_witness(J("flags", "C07_poly.c", ["-DFLAGS"], unwind=3, est=10, stubs=GEO_STUBS, bound="all 2^32 flag words x all int resolutions"))
     js += with_witness(J("empty", "C07_poly.c", ["-DEMPTY"], unwind=5, est=10, stubs=GEO_STUBS, bound="all valid modes x resolutions"))
     return js
